@@ -2,9 +2,11 @@ package main
 
 import (
 	"encoding/json"
+	"fmt"
 	"os"
 	"path/filepath"
 	"regexp"
+	"strings"
 )
 
 // Driver R3: witness replays. /verif/findings/registry.json names, for obligations that exposed a defect earlier, the
@@ -58,4 +60,71 @@ func replayWitness(w *World, ob *Obligation, rep map[string]interface{}) (bool, 
 		detail = "witness findings/" + e.File + ": " + d
 	}
 	return false, detail
+}
+
+// witnessChecksFor (thorough tier): every witness of the registry and every value-level replay test whose function is
+// among the roots of the property is run against the tree under check, whether or not an obligation failed. They are
+// not proof - they are a cross-check of the contracts against the real code: a scenario that fails on a tree whose
+// obligations all hold means the contracts (or the engine) missed something, and is reported as a violation with the
+// failing input.
+func witnessChecksFor(w *World, roots []*Contract) []*LemmaResult {
+	b, err := os.ReadFile(filepath.Join(verifDir(), "findings", "registry.json"))
+	var reg struct {
+		Witnesses []witnessEntry `json:"witnesses"`
+	}
+	if err == nil {
+		_ = json.Unmarshal(b, &reg)
+	}
+	var out []*LemmaResult
+	seen := map[string]bool{}
+	add := func(name string, failed bool, rep map[string]interface{}) {
+		if seen[name] {
+			return
+		}
+		seen[name] = true
+		ob := &Obligation{Name: "witness:" + name, Fn: "witness", Kind: "witness", Pos: name, Goal: name, Solver: "go test -overlay", Status: "discharged"}
+		if failed {
+			ob.Status = "failed"
+			ob.Model = fmt.Sprint(rep["replay_output"])
+		}
+		out = append(out, &LemmaResult{Name: "witness:" + name, Script: "; witness scenario " + name + "\n; " + fmt.Sprint(rep["replay_cmd"]), Ob: ob, Decided: true})
+	}
+	for _, e := range reg.Witnesses {
+		fnRe, err := regexp.Compile(e.Fn)
+		if err != nil {
+			continue
+		}
+		hit := false
+		for _, c := range roots {
+			if fnRe.MatchString(c.Rel) {
+				hit = true
+				break
+			}
+		}
+		if !hit || seen[e.File+":"+e.Run] {
+			continue
+		}
+		src, err := os.ReadFile(filepath.Join(verifDir(), "findings", e.File))
+		if err != nil {
+			continue
+		}
+		rep := map[string]interface{}{}
+		failed, _ := runOverlayTest(rep, e.Pkg, "zz_govc_witness_test.go", string(src), e.Run)
+		if !failed && strings.Contains(fmt.Sprint(rep["replay_output"]), "[build failed]") {
+			continue // a witness that no longer builds says nothing
+		}
+		add(e.File+":"+e.Run, failed, rep)
+	}
+	for _, c := range roots {
+		rep := map[string]interface{}{}
+		failed, detail := replayValidator(w, &Obligation{Fn: c.Rel, Kind: "post"}, rep)
+		if detail == "" {
+			continue
+		}
+		if !failed && strings.Contains(fmt.Sprint(rep["replay_output"]), "[build failed]") {
+			continue
+		}
+		add(filepath.Base(fmt.Sprint(rep["replay_source"])), failed, rep)
+	}
+	return out
 }
